@@ -120,6 +120,8 @@ def shapes(quick):
     reg('dict-dict', lambda h, l: h.dict_([(b'a', h.dict_([(b'b', leaf(h, l))])), (b'c', h.list_([h.num(1.0)]))]))
     reg('grid-1x1', lambda h, l: h.grid(None, [(b'a', None)], [[(b'a', leaf(h, l))]]))
     reg('grid-2x2', lambda h, l: h.grid(None, [(b'a', None), (b'b', None)], [[(b'a', h.num(1.0)), (b'b', leaf(h, l))], [(b'b', h.marker())]]))
+    # column order is part of the value: columns not in name order
+    reg('grid-cols-unsorted', lambda h, l: h.grid(None, [(b'id', None), (b'dis', None), (b'zeta', None), (b'area', None)], [[(b'id', h.ref(list(b'r1'))), (b'dis', leaf(h, l)), (b'area', h.num(1.0))]]))
     reg('grid-null-cells', lambda h, l: h.grid(None, [(b'a', None), (b'b', None)], [[(b'a', h.null())], []]))
     reg('grid-meta', lambda h, l: h.grid([(b'm', leaf(h, l))], [(b'a', None)], [[(b'a', h.num(1.0))]]))
     reg('grid-meta-marker', lambda h, l: h.grid([(b'm', h.marker()), (b'n', h.num(2.0))], [(b'a', None)], [[(b'a', h.num(1.0))]]))
